@@ -342,7 +342,7 @@ Proof.
   - destruct (is_phase_gate g); [|rewrite IH; reflexivity].
     cbn [iden map sem fold_left fst snd]. fold (iden R env). rewrite IH.
     change (fold_left (fun (p : state R) (g0 : gate R) => Base.app (fst g0) (snd g0) p)) with (@sem R).
-    unfold gden at 1 3. cbn [fst snd phase_sgate].
+    unfold gden. unfold phase_sgate. cbn [fst snd].
     rewrite (scalar_commutes R _ (iden R env (gate_icirc r (S i)))).
     rewrite (scalar_commutes R _ (iden R env (phase_icirc r (S i)))). reflexivity.
 Qed.
